@@ -524,3 +524,110 @@ theorem targetOrder_length {eq : Nat → Nat → Bool} (a b : List String) :
       omega
 
 end NA.PanOs
+
+namespace NA.PanOs
+
+/-! ### Identity scripts, and `Nodup` along the way -/
+
+theorem delNamesOf_identity (a : List String) : ∀ (rs : List Range), (∀ r ∈ rs, r.kind = .eq) →
+    delNamesOf a rs = [] := by
+  intro rs
+  induction rs with
+  | nil => intro _; rfl
+  | cons r rs ih =>
+    intro h
+    simp only [delNamesOf, h r (by simp)]
+    exact ih (fun r' hr' => h r' (List.mem_cons_of_mem _ hr'))
+
+theorem insGroupsFrom_identity (a : List String) : ∀ (rs : List Range) (d : Nat), (∀ r ∈ rs, r.kind = .eq) →
+    insGroupsFrom a d rs = [] := by
+  intro rs
+  induction rs with
+  | nil => intro d _; rfl
+  | cons r rs ih =>
+    intro d h
+    simp only [insGroupsFrom, h r (by simp)]
+    exact ih d (fun r' hr' => h r' (List.mem_cons_of_mem _ hr'))
+
+theorem orderOps_identity (a b : List String) (rs : List Range) (h : ∀ r ∈ rs, r.kind = .eq) :
+    orderOps a b rs = [] := by
+  unfold orderOps
+  simp [delNamesOf_identity a rs h, insGroupsFrom_identity a rs 0 h, insOps]
+
+theorem insertBeforeName_perm (d n : String) (l : List String) :
+    (insertBeforeName d n l).Perm (n :: l) := by
+  induction l with
+  | nil => simp [insertBeforeName]
+  | cons x xs ih =>
+    simp only [insertBeforeName]
+    split
+    · exact List.Perm.refl _
+    · exact (List.Perm.cons x ih).trans (List.Perm.swap n x xs)
+
+/-- An accepted order operation keeps the rule names pairwise distinct. -/
+theorem applyOrd_nodup {l l' : List String} {o : OrdOp} (h : applyOrd l o = some l') (hl : l.Nodup) :
+    l'.Nodup := by
+  cases o with
+  | del n =>
+    simp only [applyOrd] at h
+    split at h
+    · cases h; exact (List.filter_sublist).nodup hl
+    · cases h
+  | app n =>
+    simp only [applyOrd] at h
+    split at h
+    · cases h
+    · rename_i hc
+      cases h
+      rw [List.nodup_append]
+      refine ⟨hl, by simp, ?_⟩
+      intro a ha b hb e
+      simp at hb
+      subst hb; subst e
+      exact hc (by simpa using ha)
+  | mv n d =>
+    simp only [applyOrd] at h
+    split at h
+    · cases h
+    · split at h
+      · cases h
+      · split at h
+        · cases h
+        · cases h
+          refine (insertBeforeName_perm d n _).symm.nodup ?_
+          rw [List.nodup_cons]
+          exact ⟨by simp [List.mem_filter], (List.filter_sublist).nodup hl⟩
+
+theorem runOrd_nodup : ∀ (os : List OrdOp) (l l' : List String), runOrd l os = some l' → l.Nodup → l'.Nodup := by
+  intro os
+  induction os with
+  | nil => intro l l' h hl; simp only [runOrd, Option.some.injEq] at h; subst h; exact hl
+  | cons o os ih =>
+    intro l l' h hl
+    simp only [runOrd] at h
+    cases ho : applyOrd l o with
+    | none => simp [ho] at h
+    | some l1 =>
+      simp only [ho, Option.bind_some] at h
+      exact ih l1 l' h (applyOrd_nodup ho hl)
+
+/-- Every prefix of an applicable sequence of order operations is applicable. -/
+theorem runOrd_take : ∀ (os : List OrdOp) (l t : List String) (k : Nat), runOrd l os = some t →
+    ∃ l', runOrd l (os.take k) = some l' := by
+  intro os
+  induction os with
+  | nil => intro l t k h; exact ⟨l, by simp [runOrd]⟩
+  | cons o os ih =>
+    intro l t k h
+    cases k with
+    | zero => exact ⟨l, by simp [runOrd]⟩
+    | succ k =>
+      simp only [runOrd] at h
+      cases ho : applyOrd l o with
+      | none => simp [ho] at h
+      | some l1 =>
+        simp only [ho, Option.bind_some] at h
+        obtain ⟨l', hl'⟩ := ih l1 t k h
+        exact ⟨l', by simp [runOrd, ho, hl']⟩
+
+end NA.PanOs
